@@ -20,10 +20,48 @@ def hashOut (c : Cell) : String :=
   | .ok h => hexOut h
   | _ => "unhashable"
 
+def extAddrOut : ExtAddr → String
+  | .none => "none"
+  | .std wc h => s!"{wc}:{hexOut h}"
+
+def extActionOut : ExtAction → String
+  | .addExtension a => "a:" ++ extAddrOut a
+  | .removeExtension a => "r:" ++ extAddrOut a
+  | .setSignatureAllowed b => if b then "s:1" else "s:0"
+
+def extAddrArg (s : String) : Option ExtAddr :=
+  if s == "none" then some .none
+  else match s.splitOn ":" with
+    | [wc, h] => do
+      let wc ← wc.toInt?
+      let h ← hexArg h
+      pure (.std wc h)
+    | _ => none
+
+/-- extended actions: `n` = nil pointer, `e` = empty list, else items `a:<wc>:<hash>` | `a:none` | `r:…` | `s:0|1` joined by `/` -/
+def extsArg (s : String) : Option (Option (List ExtAction)) :=
+  if s == "n" then some none
+  else if s == "e" then some (some [])
+  else ((s.splitOn "/").mapM fun (it : String) =>
+    if it.startsWith "a:" then (extAddrArg (it.drop 2).toString).map ExtAction.addExtension
+    else if it.startsWith "r:" then (extAddrArg (it.drop 2).toString).map ExtAction.removeExtension
+    else if it == "s:1" then some (ExtAction.setSignatureAllowed true)
+    else if it == "s:0" then some (ExtAction.setSignatureAllowed false)
+    else none).map some
+
 def decodedOut (d : Decoded) : String :=
   let ms := d.msgs.map fun m => s!"{m.mode}:{hashOut m.msg}"
+  let xs := d.extnActions.map fun m => s!"{m.mode}:{hashOut m.msg}"
   s!"ok {d.ids.subWallet} {d.ids.walletId} {d.ids.net} {d.ids.wcByte} {d.seqno} {d.validUntil} {d.queryId} {d.msgs.length}" ++
-    (if ms.isEmpty then "" else " " ++ " ".intercalate ms)
+    (if ms.isEmpty then "" else " " ++ " ".intercalate ms) ++
+    (if d.ext.isEmpty then "" else " ext=" ++ "/".intercalate (d.ext.map extActionOut)) ++
+    (if xs.isEmpty then "" else " xacts=" ++ "/".intercalate xs)
+
+def cellOutcome (r : Outcome Cell) : String :=
+  match r with
+  | .ok c => "ok " ++ cellOut c
+  | .err _ => "err"
+  | .panic _ => "panic"
 
 /-- sign parameter of the model: the harness supplies the Ed25519 signature of the digest -/
 def fixedSign (sig : List UInt8) : List UInt8 → List UInt8 → List UInt8 := fun _ _ => sig
@@ -52,6 +90,34 @@ def opsC14 : List (String × Handler) := [
               | .err _ => "err"
               | .panic _ => "panic"
       | _, _, _, _, _, _, _, _, _, _ => "bad-op"
+    | _ => "bad-op"),
+  -- m.bodyx <seed> <wc|_> <net|_> <op> <seqno> <validUntil> <sig> <msgs> <exts>
+  --   walletV5R1.CreateSignedMsgBodyCell with extended actions: "ok <digest> <canonical body>"
+  ("m.bodyx", fun
+    | [_seed, wc, net, op, seqno, vu, sig, msgs, exts] =>
+      match optIntArg wc, optIntArg net, op.toNat?, seqno.toNat?, vu.toNat?, hexArg sig, parseMsgs msgs, extsArg exts with
+      | some wc, some net, some op, some seqno, some vu, some sig, some msgs, some exts =>
+        let ids := bodyIds .v5r1 (walletOpts wc none net)
+        match signedCellV5Ext ids op seqno vu msgs exts with
+        | .err _ => "err"
+        | .panic _ => "panic"
+        | .ok c =>
+          match c.hashO? sha256 with
+          | .ok digest =>
+            (match attachSignature .v5r1 sig c with
+            | .ok b => s!"ok {hexOut digest} {cellOut b}"
+            | .err _ => "err"
+            | .panic _ => "panic")
+          | .err _ => "err"
+          | .panic _ => "panic"
+      | _, _, _, _, _, _, _, _ => "bad-op"
+    | _ => "bad-op"),
+  -- m.extn <queryId> <msgs|n> <exts>   the body `extension_action#6578746e …` marshalled from wallet.MessageV5
+  ("m.extn", fun
+    | [q, msgs, exts] =>
+      match q.toNat?, (if msgs == "n" then some none else (parseMsgs msgs).map some), extsArg exts with
+      | some q, some msgs, some exts => cellOutcome (extensionBody q msgs exts)
+      | _, _, _ => "bad-op"
     | _ => "bad-op"),
   -- m.raw <ver> <seed> <pk> <wc|_> <sub|_> <net|_> <code|-> <init 0|1> <seqno> <validUntil> <rnd> <sig> <msgs>
   --   RawSendV2: the external message that reaches SendMessage: "ok <canonical message>" | "err sent=0" | …
